@@ -58,6 +58,18 @@ def coherent_monitor(prefix="pipe"):
             a = cur["assignments"]
             if ev.step in ("resample", "mutate") and (a is None or len(a) != len(cur["u"])):
                 p.violate(f"{prefix}:{ev.step}:assignments", f"iteration {ev.iter} after {ev.step}: assignments has {None if a is None else len(a)} entries for {len(cur['u'])} particles", iter=ev.iter)
+        if ev.step == "resample" and cur["u"] is not None and float(cur["beta"]) > 0.0 and p.state._history["u"]:
+            # the active set is drawn from the CURRENT pool: every resampled particle must be a row of the stored history
+            h = p.state._history
+            pool = {}
+            for ub, xb, lb in zip(h["u"], h["x"], h["logl"]):
+                for i in range(len(ub)):
+                    pool[np.asarray(ub[i]).tobytes()] = (np.asarray(xb[i]).tobytes(), float(lb[i]))
+            for i in range(len(cur["u"])):
+                hit = pool.get(np.asarray(cur["u"][i]).tobytes())
+                if hit is None or hit[0] != np.asarray(cur["x"][i]).tobytes() or hit[1] != float(cur["logl"][i]):
+                    p.violate(f"{prefix}:resample:not-from-pool", f"iteration {ev.iter}: resampled particle {i} is not a particle of the current history pool", iter=ev.iter)
+                    break
         if ev.step == "commit":
             h = p.state._history
             T = len(h["beta"])
@@ -76,11 +88,14 @@ def coherent_monitor(prefix="pipe"):
                 p.violate(f"{prefix}:history:{field}", f"iteration {ev.iter}: committed particle {row} is not a coherent record: {det}", iter=ev.iter)
             # append-only (shared with C17)
             d = [digest({k: h[k][t] for k in ("u", "x", "logl", "beta", "logz")}) for t in range(T)]
+            if memo["hist_digests"] is None:  # after a state load the reference is the loaded history
+                memo["hist_digests"] = d[:-1]
             old = memo["hist_digests"]
             if len(d) != len(old) + 1 or d[: len(old)] != old:
                 p.violate(f"{prefix}:commit:append-only", f"iteration {ev.iter}: history went from {len(old)} to {len(d)} batches or an earlier batch changed", iter=ev.iter)
             memo["hist_digests"] = d
 
+    mon.reset = lambda: memo.update(hist_digests=None)
     return mon
 
 
